@@ -235,24 +235,89 @@ def _run_job(job):
         return {'key': job['key'], 'error': str(e)}
 
 
+def _code_hash():
+    import hashlib
+    import glob
+    import os
+    base = os.path.dirname(os.path.dirname(os.path.abspath(__file__)))
+    h = hashlib.sha256()
+    for p in sorted(glob.glob(os.path.join(base, 'engine', '*.py')) + glob.glob(os.path.join(base, 'rules', '*.py'))):
+        with open(p, 'rb') as fh:
+            h.update(fh.read())
+    return h.hexdigest()[:16]
+
+
+def _job_cache_key(F, job):
+    """exploration results depend only on the fact file, the job description and the analyser's own code"""
+    import hashlib
+    import os
+    spec = {}
+    for k, v in job.items():
+        if k == 'key':
+            continue
+        if callable(v):
+            v = getattr(v, '__module__', '') + '.' + getattr(v, '__qualname__', repr(v))
+        elif k == 'aut' and len(v) > 1 and callable(v[1]):
+            v = (v[0], v[1].__module__ + '.' + v[1].__qualname__)
+        elif isinstance(v, dict):
+            v = sorted((str(a), str(b)) for a, b in v.items())
+        spec[k] = repr(v)
+    st = os.stat(F.path)
+    raw = repr(sorted(spec.items())) + '|' + F.path + '|%d|%d' % (st.st_size, int(st.st_mtime)) + '|' + _code_hash()
+    return hashlib.sha256(raw.encode()).hexdigest()[:32]
+
+
 def run_jobs(F, jobs, nproc=None):
-    """runs exploration jobs in forked workers; returns {key: result}"""
+    """runs exploration jobs in forked workers; returns {key: result}.  Results are cached under .cache/shape keyed by the fact
+    file identity, the job description and a hash of the analyser's code, so that several properties sharing an exploration (e.g. the
+    per-source jobs of the client dispatch) pay for it once per tree."""
     import multiprocessing as mp
     import os
+    import pickle
     global _JOB_F
     _JOB_F = F
-    nproc = nproc or min(len(jobs), max(1, (os.cpu_count() or 2) - 1), 14)
-    if nproc <= 1 or len(jobs) <= 1:
-        res = [_run_job(j) for j in jobs]
-    else:
-        ctx = mp.get_context('fork')
-        with ctx.Pool(nproc) as pool:
-            res = pool.map(_run_job, jobs, chunksize=1)
-    out = {}
-    for r in res:
-        if r.get('error'):
-            raise CannotDecide('shape exploration: ' + r['error'])
-        out[r['key']] = r
+    cdir = os.path.join(os.environ.get('VERIF_CACHE', os.path.join(os.path.dirname(os.path.dirname(os.path.abspath(__file__))), '.cache')), 'shape')
+    os.makedirs(cdir, exist_ok=True)
+    try:   # bound the cache: drop the oldest entries beyond 400 files
+        ents = sorted((os.path.getmtime(os.path.join(cdir, x)), x) for x in os.listdir(cdir))
+        for _, x in ents[:-400]:
+            os.remove(os.path.join(cdir, x))
+    except OSError:
+        pass
+    out, todo = {}, []
+    for j in jobs:
+        ck = os.path.join(cdir, _job_cache_key(F, j) + '.pkl')
+        j['_cache'] = ck
+        if os.path.exists(ck) and not os.environ.get('VERIF_NO_SHAPE_CACHE'):
+            try:
+                with open(ck, 'rb') as fh:
+                    r = pickle.load(fh)
+                r['key'] = j['key']
+                r['cached'] = True
+                out[j['key']] = r
+                continue
+            except Exception:
+                pass
+        todo.append(j)
+    nproc = nproc or min(len(todo), max(1, (os.cpu_count() or 2) - 1), 14)
+    if todo:
+        if nproc <= 1 or len(todo) <= 1:
+            res = [_run_job(j) for j in todo]
+        else:
+            ctx = mp.get_context('fork')
+            with ctx.Pool(nproc) as pool:
+                res = pool.map(_run_job, todo, chunksize=1)
+        for j, r in zip(todo, res):
+            if r.get('error'):
+                raise CannotDecide('shape exploration: ' + r['error'])
+            out[r['key']] = r
+            try:
+                tmp = j['_cache'] + '.%d.tmp' % os.getpid()
+                with open(tmp, 'wb') as fh:
+                    pickle.dump(r, fh)
+                os.replace(tmp, j['_cache'])
+            except Exception:
+                pass
     return out
 
 
